@@ -744,13 +744,13 @@ func c04SimCase(dir string, pseed uint64, mode string, oseed uint64, nops int) (
 	if obs == "" {
 		obs = "-"
 	}
-	verdict = s.oracle(mode, badBooks)
+	verdict = s.oracle(mode, badBooks, total)
 	return
 }
 
 // oracle: the properties read directly on the directory tree and the reports
 // after the final sweep.
-func (s *c04Sim) oracle(mode, badBooks string) (verdict string) {
+func (s *c04Sim) oracle(mode, badBooks, total string) (verdict string) {
 	var fails []string
 	seenClass := map[string]bool{}
 	add := func(msg string) {
@@ -770,6 +770,12 @@ func (s *c04Sim) oracle(mode, badBooks string) (verdict string) {
 		}
 		if len(fails) > 0 {
 			verdict = strings.Join(fails, " ;; ")
+		}
+	}()
+	var sumC, sumS uint64
+	defer func() {
+		if mode != "disable" && total != "~" && total != fmt.Sprintf("%d/%d", sumC, sumS) {
+			add(fmt.Sprintf("FAIL pipestance_report_totals total=%s sum_of_forks=%d/%d", total, sumC, sumS))
 		}
 	}()
 	for _, f := range s.forks {
@@ -820,6 +826,8 @@ func (s *c04Sim) oracle(mode, badBooks string) (verdict string) {
 			add("FAIL no_final_report " + shortNode(f.Node))
 			continue
 		}
+		sumC += uint64(fin.Count)
+		sumS += fin.Size
 		for _, p := range fin.Paths {
 			if _, err := os.Lstat(p); err == nil {
 				add("FAIL reported_path_exists " + filepath.Base(p))
@@ -879,6 +887,10 @@ type c04RunObs struct {
 	Sentinel string                 `json:"sentinel"`
 	Books    []c04BookDump          `json:"books"`
 	BooksErr string                 `json:"books_err"`
+	// "panic_in_immortalize": mrp crashed while serializing the final state,
+	// after VDRKill and post-processing had finished (not a VDR matter; the
+	// tree is final and is evaluated)
+	Note string `json:"note"`
 }
 
 type c04Wrote struct {
@@ -985,6 +997,11 @@ func c04Run(args []string) {
 			res := runMrp(bindir, d, psid, []string{"--vdrmode=" + mode}, env, 90*time.Second)
 			os.WriteFile(filepath.Join(d, psid+".log"), []byte(res.Stdout), 0o644)
 			obs := c04Collect(d, psid, mode, sched, res.Exit)
+			if res.Exit != 0 && strings.Contains(res.Stdout, "panic:") &&
+				strings.Contains(res.Stdout, "core.(*Pipestance).Immortalize") &&
+				strings.Contains(res.Stdout, "core.(*Pipestance).PostProcess") {
+				obs.Note = "panic_in_immortalize"
+			}
 			if sentinelDigest(outside) == before {
 				obs.Sentinel = "intact"
 			} else {
@@ -1164,7 +1181,7 @@ func c04SplitJob(job string) (node, fork, part string) {
 
 func c04E2ECase(d, psid string, obs *c04RunObs) (line, iobs, verdict string) {
 	psdir := filepath.Join(d, psid)
-	if obs.Exit != 0 {
+	if obs.Exit != 0 && obs.Note != "panic_in_immortalize" {
 		return "X", "run-failed", "FAIL run_failed exit " + strconv.Itoa(obs.Exit)
 	}
 	if obs.BooksErr != "" {
@@ -1436,6 +1453,9 @@ func c04E2ECase(d, psid string, obs *c04RunObs) (line, iobs, verdict string) {
 		} else {
 			verdict += " ;; " + symlinkBytes
 		}
+	}
+	if verdict == "ok" && obs.Note != "" {
+		verdict = "ok note=" + obs.Note
 	}
 	return
 }
